@@ -91,6 +91,7 @@ def extra(ctx, args):
     res = envres.resolve(chains.keys())
     rule = f"R{ctx.pid[1:]}.env"
     n_ok = 0
+    reported = set()
     for c in sorted(chains):
         r = res.get(c)
         if r is None:
@@ -103,9 +104,17 @@ def extra(ctx, args):
                 ctx.bad(rule, c, f"numpy has no dtype named {c.split(':', 1)[1]!r} in the pinned environment ({r['why']}); reached from this "
                         "property's entry points", chains[c], derived=c)
                 continue
+            # report the first link of the chain that is missing below an existing parent (`requests.execptions.HTTPError` fails
+            # at `requests.execptions`)
             parent = c.rsplit(".", 1)[0]
             pr = envres.resolve([parent]).get(parent)
-            if pr is not None and pr["exists"]:
+            while pr is not None and not pr["exists"] and parent.count(".") >= 1:
+                c_up, parent = parent, parent.rsplit(".", 1)[0]
+                pr = envres.resolve([parent]).get(parent)
+                chains.setdefault(c_up, chains[c])
+                c = c_up
+            if pr is not None and pr["exists"] and c not in reported:
+                reported.add(c)
                 ctx.bad(rule, f"{c}", f"`{c}` does not exist in the pinned environment ({r['why']}); reached from this property's "
                         "entry points", chains[c], derived=c)
     ctx.ok(rule, "<reachable third-party attributes>", f"{n_ok} attribute chains in {len(reach)} reachable functions exist in /venv")
